@@ -24,11 +24,13 @@ DevSpec == Init /\ [][DevNext]_vars
 (* many requests of one kind outstanding (the ack queue grows beyond its initial 16 entries, also after its
    head has moved): long random behaviours generated with TLC -simulate                                   *)
 ManyNext == steps < MaxSteps /\
-  \/ (nreq < MaxReq /\ (AppPublish(1) \/ AppPublish(1) \/ AppPublish(2)))
-  \/ \E r \in 1..nreq : ((\E i \in 1..Len(q1) : q1[i].r = r) /\ PeerPuback(r))
+  \* registering is twice as likely as acknowledging: the queues grow beyond 16 while their heads move
+  \/ (nreq < MaxReq /\ \E k \in 1..4 : AppPublish(1))
+  \/ (nreq < MaxReq /\ \E k \in 1..2 : AppPublish(2))
   \/ (q1 # <<>> /\ PeerPuback(Head(q1).r))
-  \/ \E r \in 1..nreq : ((\E i \in 1..Len(q2) : q2[i].r = r /\ q2[i].st = "none") /\ PeerPubrec(r))
-  \/ \E r \in 1..nreq : ((\E i \in 1..Len(q2) : q2[i].r = r /\ q2[i].st = "PUBREC") /\ PeerPubcomp(r))
+  \/ (q1 # <<>> /\ PeerPuback(q1[Len(q1)].r))
+  \/ (\E i \in 1..Len(q2) : (q2[i].st = "none" /\ (\A j \in 1..i-1 : q2[j].st # "none")) /\ PeerPubrec(q2[i].r))
+  \/ (q2 # <<>> /\ Head(q2).st = "PUBREC" /\ PeerPubcomp(Head(q2).r))
 ManyFinish == steps = MaxSteps /\ steps' = steps + 1 /\ UNCHANGED <<nreq, q1, q2, sb, us, ping, tree, p2in, half, wire, done, disp, last, prev, hist>>
 ManySpec == Init /\ [][ManyNext \/ ManyFinish]_vars
 EmitMany == steps <= MaxSteps \/ PrintT(ToJson(hist))
